@@ -32,6 +32,8 @@ type fragSrc struct {
 	noTie       bool // contains characters strconv.Quote escapes by an IsPrint table the generator model takes as an oracle: no text tie
 	static      bool // no expression, no statement: one argument tuple per template
 	raw         bool // not valid UTF-8 (nonutf8.go); longrun.go's runs with ill-formed bytes set long and raw
+	cases       int  // argument tuples per template (0: the tier's default)
+	vocab       map[string]string // element-vocabulary file (vocab.go): template name -> the element name it is about
 }
 
 // fragSources: the files of one run - the tgen fragment grammar, then event-handler files and long-static-run files spread
@@ -54,6 +56,8 @@ func fragSources(c *core.Ctx) []fragSrc {
 		base = append(base, fragSrc{prefix: o.Prefix, src: tgen.File(c.Rng.Fork(), o)})
 	}
 	var extra []fragSrc
+	// the element vocabulary (vocab.go): small files, in front
+	extra = append(extra, vocabSources(c)...)
 	// files that are not valid UTF-8 (nonutf8.go): the one-line sweep first, then the random ones; they stand in front of the other
 	// extra files so that the first failure reported is a small one
 	{
@@ -116,7 +120,7 @@ func fragSources(c *core.Ctx) []fragSrc {
 func fragment(c *core.Ctx) {
 	srcs := fragSources(c)
 	nFiles := len(srcs)
-	perBuild := 170
+	perBuild := 220
 	textOK, inFrag, execOK, denOK, specOK, thmOK, markOK, defsOK := true, true, true, true, true, true, true, true
 	cases, hoisted, traceDiff := 0, 0, 0
 	for start := 0; start < nFiles; start += perBuild {
@@ -188,7 +192,7 @@ func fragment(c *core.Ctx) {
 			continue
 		}
 		// (ii) compiled code = exec = denote = Denote.v
-		prog, err := probe.Build(kept, tgen.Helpers)
+		prog, err := buildProbe(kept)
 		if err != nil {
 			in := map[string]any{"build_log": trunc(prog.BuildLog, 3000), "files": len(kept)}
 			// the file the first compiler message names is the failing input
@@ -219,11 +223,20 @@ func fragment(c *core.Ctx) {
 				if fs.static {
 					n = 1
 				}
+				if fs.cases > 0 {
+					n = fs.cases
+				}
 				if fs.handlers {
 					n = c.N(6, 10)
 				}
 				for k := 0; k < n; k++ {
 					a := randArgs(c.Rng)
+					if fs.vocab != nil && k == 0 {
+						// both branches / a loop with two rounds in the first tuple, the opposite flags in the second
+						a.B0, a.B1, a.Xs = true, false, []string{"x1", "x2"}
+					} else if fs.vocab != nil {
+						a.B0, a.B1 = false, true
+					}
 					if fs.handlers && k < 4 {
 						// every combination of the two flags the conditional attributes test
 						a.B0, a.B1 = k&1 == 1, k&2 == 2
@@ -243,7 +256,7 @@ func fragment(c *core.Ctx) {
 				}
 			}
 		}
-		res, err := prog.Run(pc)
+		res, err := runProbe(c, prog, pc, func(i int) string { return kept[owner[i]].Src })
 		prog.Close()
 		if err != nil {
 			c.Oblige("correspondence", "fragment: probe program runs", false, err.Error())
@@ -277,7 +290,11 @@ func fragment(c *core.Ctx) {
 				markOK = false
 			}
 			mkIn := func(key, model string) map[string]any {
-				return exact(map[string]any{"template": pc[i].Template, "args": pc[i].Args, "source": f.Src, "impl": res[i], key: model, "first_difference": firstDiff(model, res[i])})
+				m := map[string]any{"template": pc[i].Template, "args": pc[i].Args, "source": f.Src, "impl": res[i], key: model, "first_difference": firstDiff(model, res[i])}
+				if n, ok := fs.vocab[pc[i].Template]; ok {
+					m["element_name"] = n
+				}
+				return exact(m)
 			}
 			in := exact(map[string]any{"template": pc[i].Template, "args": pc[i].Args, "source": f.Src, "impl": res[i]})
 			if fs.handlers {
